@@ -13,9 +13,9 @@ from concurrent.futures import ThreadPoolExecutor
 from vf import Check, VERIF, REPO
 
 ck = Check("C14")
-PROPS = ["MirVerif.Props.C14", "MirVerif.Props.C14.Load", "MirVerif.Props.C14.Link"]
+PROPS = ["MirVerif.Props.C14", "MirVerif.Props.C14.Load", "MirVerif.Props.C14.Link", "MirVerif.Props.C14.Reload"]
 SUPPORT = ["MirVerif.Model.Section", "MirVerif.Lemmas.Section", "MirVerif.Lemmas.SectionModule",
-           "MirVerif.Lemmas.SectionLink"]
+           "MirVerif.Lemmas.SectionLink", "MirVerif.Lemmas.SectionReload"]
 TYPES = ["i8", "u8", "i16", "u16", "i32", "u32", "i64", "u64", "f", "d", "ld", "p"]
 TSIZE = {"i8": 1, "u8": 1, "i16": 2, "u16": 2, "i32": 4, "u32": 4, "i64": 8, "u64": 8, "f": 4, "d": 8,
          "ld": 16, "p": 8}                 # the documented x86-64 sizes (python statement of the property)
